@@ -77,6 +77,7 @@ func TestC19Rewards(t *testing.T) {
 		var pool *big.Int
 		var belowCap bool
 		accrualJudged, payoutsJudged, x3Seen, absentSeen, dropSeen := 0, 0, 0, 0, 0
+		setUpdatesJudged, newcomers := 0, 0
 
 		r.H.AfterBegin = func(req sim.BlockReq) {
 			present = map[types.TmAddress]bool{}
@@ -154,6 +155,20 @@ func TestC19Rewards(t *testing.T) {
 				return
 			}
 			if !payout {
+				// validator set rebuilt at a non-payout block (a validator was dropped, a candidate
+				// changed its key): whoever stays keeps exactly its accrued reward (accrual of this
+				// block included), whoever enters starts at zero
+				setUpdatesJudged++
+				for key, got := range after {
+					want, stayed := accrued[key]
+					if !stayed {
+						want = new(big.Int)
+						newcomers++
+					}
+					if got.Cmp(want) != 0 {
+						violation(t, "c19-accrual-after-set-update", r, "EndBlock(%d) rebuilt the validator set: validator %s (in the previous set: %v) now has an accrued reward of %s, expected %s", hh, key.String()[:12], stayed, got, want)
+					}
+				}
 				return
 			}
 			// --- payout (the events of the height are stored at Commit: judged after it)
@@ -260,6 +275,8 @@ func TestC19Rewards(t *testing.T) {
 		sim.S.LabelN("C19/locked-stake-delegators-at-payout", x3Seen)
 		sim.S.LabelN("C19/absent-validator-blocks", absentSeen)
 		sim.S.LabelN("C19/dropped-validator-blocks", dropSeen)
+		sim.S.LabelN("C19/non-payout-set-updates-judged", setUpdatesJudged)
+		sim.S.LabelN("C19/non-payout-set-updates/newcomers", newcomers)
 		sim.S.Label(fmt.Sprintf("C19/near-cap=%v", wo.NearCap))
 		sim.S.Case("TestC19Rewards", payoutsJudged > 0 && accrualJudged > 0 && r.AcceptedTx > 0, sim.HashStrings(r.Steps), func() interface{} { return sim.HistorySample(r.Steps, 25) })
 	})
